@@ -124,10 +124,16 @@ def part_coalitions(res, script, post, tier, budget, rnd):
     from incomplete_cooperative.coalitions import (Coalition, all_coalitions, exclude_coalition, get_sub_coalitions,
                                                    get_super_coalitions, grand_coalition, minimal_game_coalitions,
                                                    player_to_coalition)
-    nmax = 8 if tier == "quick" else 10
+    nmax = 10
     for n in range(1, nmax + 1):
         N = 2 ** n
         full = frozenset(range(n))
+        # quick tier: n = 9, 10 are sampled (always including the coalitions that use the two highest players)
+        if tier == "quick" and n > 8:
+            cs_n = sorted({0, N - 1, N // 2, N // 4, N // 2 + 1, N // 2 + N // 4, 255, 256, 257} |
+                          {rnd.randrange(N) for _ in range(40)} | {rnd.randrange(N // 2, N) for _ in range(20)})
+        else:
+            cs_n = range(N)
         # helpers of the whole game
         ids = [c.id for c in all_coalitions(n)]
         script.add(f"bits all {n}", None, {"n": n})
@@ -149,7 +155,7 @@ def part_coalitions(res, script, post, tier, budget, rnd):
             if S(pid) != frozenset([i]):
                 res.violation("player_to_coalition(i) ≠ {i}", {"i": i}, key="player_to_coalition")
         res.evaluations += 3 + n + 1
-        for c in range(N):
+        for c in cs_n:
             if not budget.ok():
                 res.notes.append(f"coalitions: budget exhausted at n={n} c={c}")
                 return
